@@ -51,13 +51,15 @@ structure St where
   lret   : CallId → Option Nat  -- return time of the leader's Do/DoEx call
   fnres  : CallId → Option Val  -- what the (single) execution of fn for this call returned
   ekey   : CallId → Key
+  fstart : CallId → Option Nat  -- clock when the execution of fn for this call started
+  fend   : CallId → Option Nat  -- … and ended
   rets   : List Ret
 
 def init : St :=
   { lock := none, calls := fun _ => none, wg := fun _ => 0, cval := fun _ => 0, next := 0,
     pc := fun _ => .idle, key := fun _ => 0, reg := fun _ => 0, tmp := fun _ => 0,
     now := 0, inv := fun _ => 0, leader := fun _ => 0, linv := fun _ => 0, lret := fun _ => none,
-    fnres := fun _ => none, ekey := fun _ => 0, rets := [] }
+    fnres := fun _ => none, ekey := fun _ => 0, fstart := fun _ => none, fend := fun _ => none, rets := [] }
 
 /-- one atomic step of goroutine `t` with environment input `x`. -/
 def step (s : St) (t : Tid) (x : Nat) : Option St :=
@@ -76,14 +78,15 @@ def step (s : St) (t : Tid) (x : Nat) : Option St :=
   | .n0 => some { s with reg := upd s.reg t s.next, next := s.next + 1, pc := upd s.pc t .n1, now := s.now + 1,
                          wg := upd s.wg s.next 0, cval := upd s.cval s.next 0,
                          fnres := upd s.fnres s.next none, lret := upd s.lret s.next none,
+                         fstart := upd s.fstart s.next none, fend := upd s.fend s.next none,
                          leader := upd s.leader s.next t, linv := upd s.linv s.next (s.inv t),
                          ekey := upd s.ekey s.next (s.key t) }
   | .n1 => some { s with wg := upd s.wg (s.reg t) (s.wg (s.reg t) + 1), pc := upd s.pc t .n2, now := s.now + 1 }
   | .n2 => some { s with calls := upd s.calls (s.key t) (some (s.reg t)), pc := upd s.pc t .n3, now := s.now + 1 }
   | .n3 => some { s with lock := none, pc := upd s.pc t .m0, now := s.now + 1 }
-  | .m0 => some { s with pc := upd s.pc t .m1, now := s.now + 1 }
+  | .m0 => some { s with fstart := upd s.fstart (s.reg t) (some s.now), pc := upd s.pc t .m1, now := s.now + 1 }
   | .m1 => some { s with tmp := upd s.tmp t x, fnres := upd s.fnres (s.reg t) (some x), pc := upd s.pc t .m2,
-                         now := s.now + 1 }
+                         fend := upd s.fend (s.reg t) (some s.now), now := s.now + 1 }
   | .m2 => some { s with cval := upd s.cval (s.reg t) (s.tmp t), pc := upd s.pc t .d0, now := s.now + 1 }
   | .d0 => if s.lock = none then some { s with lock := some t, pc := upd s.pc t .d1, now := s.now + 1 } else none
   | .d1 => some { s with calls := upd s.calls (s.key t) none, pc := upd s.pc t .d2, now := s.now + 1 }
